@@ -17,11 +17,11 @@ import math
 from hypothesis import strategies as st
 
 from .. import netgen, spec as S
-from ..outcome import exc_bucket, fail, inconclusive, passed
+from ..outcome import CaseTimeout, exc_bucket, fail, inconclusive, passed
 
 ID = 'C19'
 LEVEL = 'exploration'
-CASES = {'quick': 2000, 'thorough': 30000}
+CASES = {'quick': 1600, 'thorough': 20000}
 CASE_TIMEOUT = 40
 TECHNIQUE = ('property-based testing (Hypothesis): generated networks and edit parameters; oracle = element-wise '
              'comparison of to_dict() before/after against a reference written from the statement (arc-length '
@@ -213,6 +213,8 @@ def check_split(case):
     tags = _split_tags(case, spec, pipe)
     try:
         wn = _build(spec)
+    except CaseTimeout:      # the runner's wall limit, not a wntr exception
+        raise
     except Exception as e:
         return fail(exc_bucket(e, 'build'), 'building the model raised %r' % e, tags)
     d0 = _snap(wn)
@@ -224,6 +226,8 @@ def check_split(case):
         else:
             wn2 = wntr.morph.break_pipe(wn, pname, NEW_PIPE, NEW_J0, NEW_J1, add_pipe_at_end=at_end,
                                         split_at_point=f, return_copy=bool(case['copy']))
+    except CaseTimeout:      # the runner's wall limit, not a wntr exception
+        raise
     except Exception as e:     # the statement quantifies over every pipe and every fraction in [0,1]
         return fail(exc_bucket(e, 'split_raises'),
                     '%s_pipe(%s, f=%r, at_end=%s) on a pipe with %d vertices raised %r'
@@ -345,14 +349,45 @@ def check_split(case):
         ref_spec = json.loads(json.dumps(spec))
         ref_spec['pipes'][case['pipe'] % len(pipes)]['minor'] = 2.0 * pipe['minor']
     hw = spec['opts']['hw_approx']
+    tags.append('sim:hw_' + hw)
+    # stage 1: the case's own H-W formulation, Newton TOL 1e-8
     run0 = S.run_wntr(_build(ref_spec), hw_approx=hw, tol=1e-8)
     if run0.exception is not None or not run0.ok:
         return pending or inconclusive('original model: WNTRSimulator did not converge', tags)
     run1 = S.run_wntr(wn2, hw_approx=hw, tol=1e-8)
     if run1.exception is not None or not run1.ok:
         return pending or inconclusive('split model: WNTRSimulator did not converge', tags)
+    bad = _compare_runs(run0, run1, sorted(d0['nodes']), sorted(d0['links']), pname)
+    if bad is not None:
+        # stage 2: a mismatch counts only if it persists in the formulation that is exactly additive over the two
+        # halves.  The 'default' formulation adds a regulariser eps*sqrt(k)*q per pipe (constraint.py), which is not
+        # additive in the length (sqrt(k1)+sqrt(k2) != sqrt(k1+k2)) and perturbs heads at the 1e-6 m level; tank
+        # events and flat loops can amplify that.  'piecewise' is k*g(q) in all three branches, hence exact.
+        tags.append('sim:stage2')
+        wn3 = _build(spec)
+        wn3 = wntr.morph.split_pipe(wn3, pname, NEW_PIPE, NEW_J0, add_pipe_at_end=at_end, split_at_point=f,
+                                    return_copy=False)
+        run0 = S.run_wntr(_build(ref_spec), hw_approx='piecewise', tol=1e-11)
+        run1 = S.run_wntr(wn3, hw_approx='piecewise', tol=1e-11)
+        if run0.exception is not None or not run0.ok or run1.exception is not None or not run1.ok:
+            return pending or inconclusive('mismatch at Newton TOL 1e-8 (%s); the confirming piecewise/TOL 1e-11 runs '
+                                           'did not converge' % bad[0], tags)
+        bad2 = _compare_runs(run0, run1, sorted(d0['nodes']), sorted(d0['links']), pname)
+        if bad2 is not None:
+            return fail('split/hydraulics/' + bad2[0], what + ': ' + bad2[1] + ' (piecewise H-W, Newton TOL 1e-11; first '
+                        'seen with hw=%s, TOL 1e-8: %s)' % (hw, bad[1]), tags)
+        tags.append('sim:mismatch_not_confirmed')
+    q = run0.link['flowrate'][pname]
+    moving = any(abs(v) > 1e-9 for v in q if not math.isnan(v))
+    if moving:
+        tags.append('sim:flow_through_split_pipe')
+    return pending or passed(moving, tags)
+
+
+def _compare_runs(run0, run1, nodes, links, pname):
+    """original nodes and links agree at every report time; both halves carry the flow of the original pipe"""
     if len(run0.times) != len(run1.times) or any(x != y for x, y in zip(run0.times, run1.times)):
-        return fail('split/hydraulics/report_times', what + ': report times differ %r vs %r' % (run0.times, run1.times), tags)
+        return ('report_times', 'report times differ %r vs %r' % (list(run0.times), list(run1.times)))
 
     def differ(x, y, atol, rtol):
         for k in range(len(x)):
@@ -363,24 +398,20 @@ def check_split(case):
                 return k
         return None
 
-    for n in sorted(d0['nodes']):
+    for n in nodes:
         for col, atol, rtol in (('head', 1e-4, 0.0), ('demand', 1e-6, 1e-6)):
             k = differ(run0.node[col][n], run1.node[col][n], atol, rtol)
             if k is not None:
-                return fail('split/hydraulics/node_%s' % col, what + ': %s of node %s at t=%s: %r before, %r after the split'
-                            % (col, n, run0.times[k], run0.node[col][n][k], run1.node[col][n][k]), tags)
-    for l in sorted(d0['links']):
+                return ('node_%s' % col, '%s of node %s at t=%s: %r before, %r after the split'
+                        % (col, n, run0.times[k], run0.node[col][n][k], run1.node[col][n][k]))
+    for l in links:
         for l2 in ([l] if l != pname else [pname, NEW_PIPE]):
             k = differ(run0.link['flowrate'][l], run1.link['flowrate'][l2], 1e-6, 1e-6)
             if k is not None:
-                return fail('split/hydraulics/%s' % ('half_flow' if l == pname else 'link_flow'),
-                            what + ': flow of %s at t=%s was %r, after the split %s carries %r'
-                            % (l, run0.times[k], run0.link['flowrate'][l][k], l2, run1.link['flowrate'][l2][k]), tags)
-    q = run0.link['flowrate'][pname]
-    moving = any(abs(v) > 1e-9 for v in q if not math.isnan(v))
-    if moving:
-        tags.append('sim:flow_through_split_pipe')
-    return pending or passed(moving, tags)
+                return ('half_flow' if l == pname else 'link_flow', 'flow of %s at t=%s was %r, after the split %s '
+                        'carries %r' % (l, run0.times[k], run0.link['flowrate'][l][k], l2,
+                                        run1.link['flowrate'][l2][k]))
+    return None
 
 
 # ------------------------------------------------------------------------------------------------ skeletonize
@@ -465,6 +496,8 @@ def check_skel(case):
             tags.append('net:' + k)
     try:
         wn = _build(spec, case.get('rules', ()))
+    except CaseTimeout:      # the runner's wall limit, not a wntr exception
+        raise
     except Exception as e:
         return fail(exc_bucket(e, 'build'), 'building the model raised %r' % e, tags)
     thr = float(case['threshold'])
@@ -477,6 +510,8 @@ def check_skel(case):
                                      use_epanet=bool(case['use_epanet']), pipes_to_exclude=list(case['excl_pipes']),
                                      junctions_to_exclude=list(case['excl_junctions']), return_map=True,
                                      return_copy=bool(case['copy']))
+    except CaseTimeout:      # the runner's wall limit, not a wntr exception
+        raise
     except Exception as e:
         # skeletonize first runs a single-period simulation in its constructor; a failure of that run (EPANET
         # error, or a non-converged WNTR run leaving no row at t = 0 for `head.loc[0, ...]`) is not this property's
@@ -620,7 +655,10 @@ def split_case(draw, tier='quick'):
         elif draw(st.integers(0, 3)) == 0:
             q['vertices'] = _vertices(draw, spec, q, 2)
     if draw(st.integers(0, 3)) == 0:      # a few simple controls (also on the split pipe): they must survive unchanged
-        targets = [q['name'] for q in pipes if not q['cv']] + [l['name'] for l in spec['pumps']]
+        # the new pipe gets no controls (documented): a control opening an initially closed split pipe would leave
+        # the new half closed and legitimately change the hydraulics, so a closed target pipe is not controlled
+        targets = [q['name'] for q in pipes if not q['cv'] and not (q is p and q['status'] == 'CLOSED')] \
+            + [l['name'] for l in spec['pumps']]
         jn = [j['name'] for j in spec['junctions']]
         for i in range(draw(st.integers(1, 2)) if targets else 0):
             c = {'name': 'ctl%d' % i, 'link': draw(st.sampled_from(targets)), 'attr': 'status',
